@@ -40,6 +40,9 @@ and whether it returned; channel occupancy is the difference of two counters):
   task waits for `cores v` of `max` slots, runs, releases them and only then offers `Done`, with
   head-of-queue forwarding (`Model/NetSlots.lean`) — by projecting stuck states onto the counting model; the
   abstraction "a created task always becomes forwardable" is thereby a theorem, given `cores v ≤ max`.
+Not covered by the positive theorems: processes that read a whole stream before emitting (the combinators,
+Concatenator, StreamToSubStream) — with one of them in a reconverging fan-out even a balanced network deadlocks
+once a stream is longer than the buffer (`c05_network_batch_deadlocks`, finding F23, reproduced on the real code).
 Negatives at network level: `c05_network_unbalanced_deadlocks` (F20: a process stops reading at the
 first closed in-port; the other upstream then blocks forever), `c05_network_needs_buffer` (F18, B = 0).
 
@@ -185,6 +188,36 @@ theorem c05_network_oversize_blocks :
                  s.q ⟨0, by omega⟩)) = some (true, [.waiting]) := by decide
 
 open SciVerif.Net in
+/-- source 0 feeds a whole-stream reader 1 and, directly, process 2, which also consumes 1's output -/
+def netBatch (N B : Nat) : Net 3 :=
+  { ins := fun v => if v.val = 1 then [⟨0, by omega⟩] else if v.val = 2 then [⟨0, by omega⟩, ⟨1, by omega⟩] else [],
+    src := fun _ => N, B := B }
+
+open SciVerif.Net in
+/-- negative (F23): a *balanced* network with a whole-stream reader inside a reconverging fan-out deadlocks
+as soon as the stream is longer than the buffer: the source cannot hand its second item to the reader
+before process 2 has taken the first one, process 2 waits for the reader's output, and the reader emits
+nothing before it has seen the whole stream -/
+theorem c05_network_batch_deadlocks :
+    (runB (netBatch 2 1) (fun v => v.val == 1) (init 3)
+        [.create ⟨0, by omega⟩, .create ⟨0, by omega⟩, .forward ⟨0, by omega⟩, .create ⟨1, by omega⟩]).map
+      (fun s => (stuckBB (netBatch 2 1) (fun v => v.val == 1) s, s.term ⟨0, by omega⟩, s.f ⟨0, by omega⟩, s.c ⟨1, by omega⟩, s.c ⟨2, by omega⟩)) =
+      some (true, false, 1, 1, 0) := by decide
+
+open SciVerif.Net in
+/-- the same network without the whole-stream reader is covered by the positive theorems -/
+example : balanced (netBatch 2 1) 2 ∧ acyclic (netBatch 2 1) := by
+  constructor
+  · intro v hv
+    simp [netBatch]
+  · intro v u hu
+    by_cases h1 : v.val = 1
+    · simp [netBatch, h1] at hu; subst hu; simp [h1]
+    · by_cases h2 : v.val = 2
+      · simp [netBatch, h2] at hu; rcases hu with rfl | rfl <;> simp [h2]
+      · simp [netBatch, h1, h2] at hu
+
+open SciVerif.Net in
 /-- two sources feeding one process (diamond without the top) -/
 def netJoin (a b B : Nat) : Net 3 :=
   { ins := fun v => if v.val = 2 then [⟨0, by omega⟩, ⟨1, by omega⟩] else [],
@@ -229,6 +262,7 @@ end SciVerif.C05
 #print axioms SciVerif.C05.c05_network_with_slots_no_deadlock
 #print axioms SciVerif.C05.c05_network_with_slots_complete
 #print axioms SciVerif.C05.c05_network_oversize_blocks
+#print axioms SciVerif.C05.c05_network_batch_deadlocks
 #print axioms SciVerif.C05.c05_network_unbalanced_deadlocks
 #print axioms SciVerif.C05.c05_network_needs_buffer
 #print axioms SciVerif.C05.c05_run_waits_for_driver_and_sink
